@@ -9,7 +9,10 @@
 #include <cxxabi.h>
 #include <iomanip>
 #include <iterator>
+#include <algorithm>
+#include <cstring>
 #include <list>
+#include <string_view>
 
 using namespace drv;
 
@@ -125,6 +128,44 @@ int main()
                 }
                 out("J ok " + hex(a) + " " + hex(a));
             }
+            else if (c == "JOINC")
+            {
+                // JOINC <infix> <chars>: ranges of CHARACTERS (std::string, vector<char>, list<signed char>, char array)
+                std::string infix = unhex(w[1]), chars = w.size() > 2 ? unhex(w[2]) : std::string();
+                std::vector<char> vc(chars.begin(), chars.end());
+                std::list<signed char> ls(chars.begin(), chars.end());
+                std::string a = nitro::lang::join(chars.begin(), chars.end(), infix);
+                std::string b = nitro::lang::join(vc.begin(), vc.end(), infix);
+                std::string c2 = nitro::lang::join(ls.begin(), ls.end(), infix);
+                std::vector<unsigned char> vu(chars.begin(), chars.end());
+                std::string d = nitro::lang::join(vu.begin(), vu.end(), infix);
+                out("J ok " + hex(a) + " " + hex(b == a && c2 == a && d == a ? a : "containers-of-characters-disagree"));
+            }
+            else if (c == "JOINT2")
+            {
+                // JOINT2 <infix> <ints...>: the same numbers as unsigned long long, short, bool (!=0), double and as
+                // C strings (const char*)
+                std::string infix = unhex(w[1]);
+                std::vector<unsigned long long> vu;
+                std::vector<short> vs;
+                std::vector<bool> vb;
+                std::vector<double> vd;
+                std::vector<std::string> keep;
+                for (std::size_t i = 2; i < w.size(); ++i)
+                {
+                    vu.push_back(std::strtoull(w[i].c_str(), nullptr, 10));
+                    vs.push_back(static_cast<short>(std::atoi(w[i].c_str()) % 30000));
+                    vb.push_back(std::atoll(w[i].c_str()) % 2 != 0);
+                    vd.push_back(static_cast<double>(std::atoi(w[i].c_str()) % 1000) + 0.5);
+                    keep.push_back(w[i]);
+                }
+                std::vector<const char*> vp;
+                for (auto& k : keep)
+                    vp.push_back(k.c_str());
+                out("J ok " + hex(nitro::lang::join(vu.begin(), vu.end(), infix)) + " " +
+                    hex(nitro::lang::join(vs.begin(), vs.end(), infix) + "|" + nitro::lang::join(vb.begin(), vb.end(), infix) + "|" +
+                        nitro::lang::join(vd.begin(), vd.end(), infix) + "|" + nitro::lang::join(vp.begin(), vp.end(), infix)));
+            }
             else if (c == "JOINS")
             {
                 // JOINS <infix> <elems...>: the range is read through single-pass input iterators
@@ -174,6 +215,40 @@ int main()
                         fm % static_cast<char>(std::atoi(v.c_str()));
                     else if (k == 'p')
                         fm % unhex(v).c_str();
+                    else if (k == 'b' || k == 'B')
+                    {
+                        // an lvalue character buffer that is larger than its text (b: char[64], B: const char[64])
+                        std::string t = unhex(v);
+                        char buf[64];
+                        std::memset(buf, 'Z', sizeof buf);
+                        std::memcpy(buf, t.c_str(), std::min<std::size_t>(t.size(), 63) + 1);
+                        buf[63] = 0;
+                        const char(&cbuf)[64] = buf;
+                        if (k == 'b')
+                            fm % buf;
+                        else
+                            fm % cbuf;
+                    }
+                    else if (k == 'u')
+                        fm % std::strtoull(v.c_str(), nullptr, 10);
+                    else if (k == 't')
+                        fm % (v == "1");
+                    else if (k == 'f')
+                        fm % static_cast<float>(std::atof(v.c_str()));
+                    else if (k == 'v')
+                    {
+                        std::string t = unhex(v);
+                        fm % std::string_view(t);
+                    }
+                    else if (k == 'S')
+                    {
+                        const std::string t = unhex(v);
+                        fm % t;
+                    }
+                    else if (k == 'h')
+                        fm % static_cast<short>(std::atoi(v.c_str()));
+                    else if (k == 'y')
+                        fm % static_cast<unsigned char>(std::atoi(v.c_str()));
                 };
                 if (how == "%")
                 {
@@ -319,6 +394,30 @@ int main()
                     ty = "nitro";
                 }
                 out("X " + ty + " " + hex(got));
+            }
+            else if (c == "RAISEB")
+            {
+                // RAISEB <s:text> <i:number> <s:text2>: character buffers larger than their text as arguments
+                std::string got;
+                std::string t1 = unhex(w[1].substr(2)), t2 = unhex(w[3].substr(2));
+                int num = std::atoi(w[2].substr(2).c_str());
+                char b1[32], b2[16];
+                std::memset(b1, 'Z', sizeof b1);
+                std::memset(b2, 'Z', sizeof b2);
+                std::memcpy(b1, t1.c_str(), std::min<std::size_t>(t1.size(), 31) + 1);
+                std::memcpy(b2, t2.c_str(), std::min<std::size_t>(t2.size(), 15) + 1);
+                b1[31] = 0;
+                b2[15] = 0;
+                const char(&c1)[32] = b1;
+                try
+                {
+                    nitro::raise(c1, num, b2, static_cast<const char*>(b1));
+                }
+                catch (nitro::except::exception& e)
+                {
+                    got = e.what();
+                }
+                out("X nitro " + hex(got));
             }
             else if (c == "RAISEM")
             {
